@@ -18,16 +18,34 @@ from . import harness
 
 
 # ---------------------------------------------------------------- names
+# Names are an order-preserving encoding of the numeric labels (the readers sort by name; the model sorts by label).
+# With FANCY set, the five "digits" after the prefix come from an alphabet of awkward characters in code-point order
+# (= UTF-8 byte order = Rust's String order): space, quote, backslash, both cases, non-ASCII, an astral character.
+FANCY = None
+ALPHABET = [" ", "\"", "-", "0", "9", "A", "Z", "\\", "a", "z", "\u00e9", "\u4e2d", "\U0001F600"]
+assert ALPHABET == sorted(ALPHABET)
+
+
+def _enc(prefix, i):
+    if FANCY is None:
+        return "%s%05d" % (prefix, i)
+    n, out = i, ""
+    for _ in range(5):
+        out = FANCY[n % len(FANCY)] + out
+        n //= len(FANCY)
+    return prefix + out
+
+
 def iname(i):
-    return "I%05d" % i
+    return _enc("I", i)
 
 
 def aname(a):
-    return "a%05d" % a
+    return _enc("a", a)
 
 
 def cname(c):
-    return "C%05d" % c
+    return _enc("C", c)
 
 
 # ---------------------------------------------------------------- JSON DSL
@@ -434,7 +452,7 @@ def run_cli(args, text=None, path_text=None, ext=".json", out_file=False, timeou
     files = []
     if path_text is not None:
         p = os.path.join(WORK, "%s_in%s" % (name, ext))
-        with open(p, "w") as f:
+        with open(p, "w", encoding="utf-8") as f:
             f.write(path_text)
         files.append(p)
         cmd += ["-i", p]
@@ -447,19 +465,19 @@ def run_cli(args, text=None, path_text=None, ext=".json", out_file=False, timeou
             os.remove(op)
         if prefill is not None:
             # the output path already exists (e.g. the result of an earlier, larger run)
-            with open(op, "w") as f:
+            with open(op, "w", encoding="utf-8") as f:
                 f.write(prefill)
         files.append(op)
         cmd += ["-o", op]
     try:
-        p = subprocess.run(cmd, input=inp, capture_output=True, text=True, timeout=timeout)
+        p = subprocess.run(cmd, input=inp, capture_output=True, text=True, timeout=timeout, encoding="utf-8", errors="replace")
         err = p.stderr if len(p.stderr) <= 4000 else p.stderr[:2000] + "\n...[cut]...\n" + p.stderr[-2000:]
         res = {"exit": p.returncode, "stdout": p.stdout, "stderr": err}
     except subprocess.TimeoutExpired:
         res = {"exit": "timeout", "stdout": "", "stderr": ""}
     res["outfile"] = None
     if op and os.path.exists(op):
-        res["outfile"] = open(op).read()
+        res["outfile"] = open(op, encoding="utf-8", errors="replace").read()
     for f in files:
         if os.path.exists(f):
             os.remove(f)
